@@ -62,6 +62,11 @@ CHECKS = {
          "Joint boundary product of all six values (592,900 combinations; thorough adds the complete u16 x u16 products for channel_max and heartbeat, 8.6e9 evaluations) compared with a five-line min-with-0-as-unlimited reference, including the FrameMaxTooSmall floor.",
          "Covers the negotiation half only; 'then obeyed' (channel limit, frame splitting, heartbeat timing by the announced values) is not decided by this part.",
          "DESIGN.md §6 C15", "seqx"),
+ "C16": ("model_checking",
+         "stateless deviation-bounded exhaustive exploration of the opening handshake on the real I/O loop against every scripted server behaviour per stage, plus a complete cartesian sweep of StartOk construction",
+         "simx: at each of the three points where the client waits the broker either behaves or sends one of 12 other things (Secure, Close, wrong-stage frames, heartbeat, channel-1 method, header, body, EOF, malformed bytes, silence with a configured timeout), plus mechanism/locale lists, too small frame_max, auth/information options and transport faults injected at any point; every delivery cut/schedule with at most 2 (thorough 3) deviations. Oracle: the exact error or success, methods written strictly in reaction (StartOk content, TuneOk, Open vhost, CloseOk on a server close), server_properties, thread and transport released. seqx: 228k (mechanism list, locale list, auth, locale, information) combinations through make_start_ok with token-equality expectations.",
+         "Where the statement leaves the error open (malformed bytes / silence while waiting for the reply to StartOk) either reading is accepted. Silence without a configured timeout is outside the statement and not generated. Virtual time replaces the poll timeout (DESIGN.md 3.3).",
+         "DESIGN.md §6 C16", "seqx+simx"),
  "C19": ("exploration",
          "complete cartesian enumeration of URLs assembled from component alphabets through the real URL decoding, oracle = the components (never re-parsed)",
          "1.68 million URLs (thorough: more hosts and all ordered triples of valid parameters) assembled from scheme x userinfo x host x port x path x query alphabets; decoded host, port, credentials, vhost, heartbeat, channel_max, connection_timeout, auth mechanism or the specific error compared with the tuple the URL was built from; Connection::open on every accepted amqp:// shape must answer InsecureUrl.",
